@@ -344,6 +344,7 @@ func (im *Impl) apply(op Op) (out OutJ, quota []ItemJ, err error) {
 		// the first acquires of a joining instance arrive in parallel: goroutines released together through the
 		// real DoAcquire; the verdicts depend on the order and are not compared, the state at quiescence is
 		fc := rig.UnHex(op.FC)
+		baseGoroutines := runtime.NumGoroutine()
 		var wg sync.WaitGroup
 		var gate, ready int32
 		var panicked atomic.Value
@@ -373,6 +374,10 @@ func (im *Impl) apply(op Op) (out OutJ, quota []ItemJ, err error) {
 		time.Sleep(10 * time.Microsecond)
 		atomic.StoreInt32(&gate, 1)
 		wg.Wait()
+		// the senders must be gone for good: the time-out pass awaits its own goroutines by counting goroutines
+		for dl := time.Now().Add(10 * time.Second); runtime.NumGoroutine() > baseGoroutines && time.Now().Before(dl); {
+			runtime.Gosched()
+		}
 		if p := panicked.Load(); p != nil {
 			panic(p)
 		}
